@@ -1,12 +1,27 @@
 (* C10 — replay of implementation traces against the model and the monitor.
-   A case = (chain, initial tip, list of (operation, observation on the real code)). *)
+   A case = (chain, script table, initial tip, list of (operation, observation
+   on the real code)).  The script table names, for every output that pays the
+   script of another outpoint, that outpoint (its script class); the watch list
+   the scanner hands to the filter is a set of SCRIPTS, observed as classes. *)
 From Coq Require Import ZArith List Bool.
 From Verif Require Import C10.Model C10.Spec.
 Import ListNotations.
 Open Scope Z_scope.
 
 Definition T (i : Z) (l : list outpoint) (n : Z) : tx := {| txid := i; ins := l; nouts := n |}.
-Definition case := (list block * Z * list (op * obs))%type.
+Definition scripts := list (outpoint * outpoint).
+Definition case := (list block * scripts * Z * list (op * obs))%type.
+
+Definition repr (sc : scripts) (o : outpoint) : outpoint :=
+  match find (fun p => op_eqb (fst p) o) sc with Some p => snd p | None => o end.
+
+(* a negative filter answer is truthful for the requests the MODEL is watching *)
+Definition neg_truthful (ch : list block) (s : state) (o : op) : bool :=
+  match o, pc s with
+  | Step false false, Filt h _ =>
+    forallb (fun p => match spend_at ch (rop (fst p)) h with None => true | Some _ => false end) (act s)
+  | _, _ => true
+  end.
 
 Definition pc_code (s : state) : Z * Z :=
   match pc s with
@@ -28,7 +43,7 @@ Definition finish_ok (macc impl : list (Z * result)) : bool :=
   (Nat.eqb (length macc) (length impl)) && forallb (fin_one macc) impl &&
   forallb (fun m => existsb (fun d => fst m =? fst d) impl) macc.
 
-Fixpoint replay (ch : list block) (s : state) (stopped : bool) (macc : list (Z * result)) (i : Z)
+Fixpoint replay (ch : list block) (sc : scripts) (s : state) (stopped : bool) (macc : list (Z * result)) (i : Z)
          (tr : list (op * obs)) : option Z :=
   match tr with
   | [] => None
@@ -38,13 +53,15 @@ Fixpoint replay (ch : list block) (s : state) (stopped : bool) (macc : list (Z *
     let stopped' := stopped || is_stop o in
     let '(k, h) := pc_code s' in
     let pc_ok := (k =? opc ob) && (h =? oh ob) &&
-                 (if k =? 3 then sub_ops (watchlist s') (owl ob) && sub_ops (owl ob) (watchlist s') else true) &&
+                 (if k =? 3 then sub_ops (map (repr sc) (watchlist s')) (owl ob) &&
+                                 sub_ops (owl ob) (map (repr sc) (watchlist s')) else true) &&
+                 neg_truthful ch s o &&
                  Bool.eqb (oacc ob) (match o with Enq _ _ => nxt s' =? nxt s + 1 | _ => true end) in
     let del_ok := if is_finish o then finish_ok (macc ++ md) (odel ob)
                   else if stopped' then match odel ob with [] => true | _ => false end
                   else set_eq_d md (odel ob) in
     if pc_ok && del_ok
-    then replay ch s' stopped' (if stopped' then macc ++ md else []) (i + 1) rest
+    then replay ch sc s' stopped' (if stopped' then macc ++ md else []) (i + 1) rest
     else Some i
   end.
 
@@ -52,8 +69,8 @@ Fixpoint replay (ch : list block) (s : state) (stopped : bool) (macc : list (Z *
    kind 2 = the monitor rejects the implementation trace.  No open root
    cause is modelled (F06, F07 are repaired), so the tag is always 0. *)
 Definition verdict (c : Z * case) : list (Z * Z * Z * Z) :=
-  let '(id, (ch, tip0, tr)) := c in
-  (match replay ch (init tip0) false [] 0 tr with Some i => [(id, 1, i, 0)] | None => [] end) ++
+  let '(id, (ch, sc, tip0, tr)) := c in
+  (match replay ch sc (init tip0) false [] 0 tr with Some i => [(id, 1, i, 0)] | None => [] end) ++
   (match first_bad ch (mon0 tip0) 0 tr with Some i => [(id, 2, i, 0)] | None => [] end).
 
 Definition run_cases (cs : list (Z * case)) : list (Z * Z * Z * Z) := flat_map verdict cs.
